@@ -140,6 +140,10 @@ pub struct RtCase {
   pub msg: Text,
   pub footer: Option<Text>,
   pub assertion: Option<Text>,
+  /// attempts that must fail, made on the same thread between building and the round-trip parse (bit set):
+  /// 1 wrong key, 2 wrong footer, 4 wrong assertion, 8 tampered token, 16 garbage / truncated text
+  #[serde(default)]
+  pub before: u8,
 }
 
 impl RtCase {
@@ -186,8 +190,8 @@ fn nonce_for(proto: Proto) -> BoxedStrategy<Vec<u8>> {
 pub fn rt_case(proto: Proto, layer: Layer) -> BoxedStrategy<RtCase> {
   let msg = if proto.cost() > 4 { gen::short_text() } else { gen::text() };
   let assertion = if proto.has_assertion() { gen::opt_text() } else { Just(None).boxed() };
-  (gen::bytes32(), nonce_for(proto), msg, gen::opt_text(), assertion)
-    .prop_map(move |(key_seed, nonce, msg, footer, assertion)| RtCase { proto, layer, key_seed, nonce, msg, footer, assertion })
+  (gen::bytes32(), nonce_for(proto), msg, gen::opt_text(), assertion, prop_oneof![3 => Just(0u8), 1 => 1u8..32])
+    .prop_map(move |(key_seed, nonce, msg, footer, assertion, before)| RtCase { proto, layer, key_seed, nonce, msg, footer, assertion, before })
     .boxed()
 }
 
@@ -211,6 +215,7 @@ pub fn dense_sweep(proto: Proto, layer: Layer, max: u32) -> Vec<RtCase> {
       msg: Text::Sized(len, (i % 4) as u8),
       footer: match i % 5 { 0 => None, 1 => Some(Text::Lit(String::new())), _ => Some(Text::Sized((i % 41) as u32, ((i / 5) % 4) as u8)) },
       assertion: if proto.has_assertion() { match i % 3 { 0 => None, _ => Some(Text::Sized(((i * 3) % 43) as u32, ((i / 3) % 4) as u8)) } } else { None },
+      before: if i % 7 == 3 { (i % 31) as u8 + 1 } else { 0 },
     });
   }
   out
@@ -235,6 +240,7 @@ pub fn boundary_sweep(proto: Proto, layer: Layer, max_len: u32) -> Vec<RtCase> {
         msg: Text::Sized(*len, flavour),
         footer: if with_footer { Some(Text::Sized(gen::BOUNDARY_LENS[(i * 7 + 3) % 20], 1)) } else { None },
         assertion: if proto.has_assertion() && (i % 2 == 0) == with_footer { Some(Text::Sized(gen::BOUNDARY_LENS[(i * 5 + 1) % 20], 3)) } else { None },
+        before: if i % 3 == 1 { 31 } else { 0 },
       });
     }
   }
